@@ -641,6 +641,10 @@ fn main() {
       if matches!(size, Size::Streamed | Size::Slow) && (bclass != BClass::Ok || (size == Size::Streamed && body.len() <= MAX_BODY)) {
         size = Size::Ok;
       }
+      if size == Size::Ok && body.len() > MAX_BODY {
+        // sent with its true Content-Length: a declared oversize
+        size = Size::Declared;
+      }
       if size == Size::Slow {
         slow_budget -= 1;
       }
